@@ -32,6 +32,7 @@ func propC13(c *Ctx) propInfo {
 	c.losslessPublication()
 	c.waitListIDs()
 	c.waitPolarity()
+	c.loopVarEscape("E17.loopvar-escape", "liteapi/pool")
 	c.nilContradictions("E1.P8-nil-contradiction", "liteapi/pool")
 	c.floor("E9.K1-guarded-by", 20)
 	c.floor("E9.K2-pairing", 10)
@@ -375,6 +376,55 @@ func (c *Ctx) waitListIDs() {
 		}
 		c.check(okAll, R, "registered wait-list id differs from the fast-path id", mu.Pos(), fmt.Sprintf("key proved different from the constant id(s) %v returned without registration", fast),
 			fmt.Sprintf("a waiter can be registered under id %v, the id subscribe returns on its fast path: the fast-path caller's deferred unsubscribe deletes that waiter, which then never gets notified", fast))
+	})
+	// ids are unique over the pool's lifetime: the key is the incremented value of a counter FIELD
+	// that is stored back (it only grows); an id computed from the current size of the wait list is
+	// handed out again as soon as an earlier waiter has left, and the newcomer overwrites a waiter
+	// that is still registered
+	allInstrs(f, func(b *ssa.BasicBlock, i ssa.Instruction) {
+		mu, ok := i.(*ssa.MapUpdate)
+		if !ok {
+			return
+		}
+		ld, ok := mu.Map.(*ssa.UnOp)
+		if !ok {
+			return
+		}
+		if of, ok := ownerField(ld.X); !ok || of != "pool.ConnPool.waitList" {
+			return
+		}
+		fromLen := derivesFrom(mu.Key, func(v ssa.Value) bool {
+			cl := callOf(v)
+			if cl == nil {
+				return false
+			}
+			bi, ok := cl.Call.Value.(*ssa.Builtin)
+			return ok && bi.Name() == "len"
+		}, false)
+		// counter: key derives from a load of an integer field that the function also stores an
+		// incremented value into
+		counter := false
+		derivesFrom(mu.Key, func(v ssa.Value) bool {
+			l2, ok := v.(*ssa.UnOp)
+			if !ok || l2.Op != token.MUL {
+				return false
+			}
+			fa, ok := l2.X.(*ssa.FieldAddr)
+			if !ok || !isInteger(l2.Type()) {
+				return false
+			}
+			allInstrs(f, func(_ *ssa.BasicBlock, j ssa.Instruction) {
+				if st, ok := j.(*ssa.Store); ok {
+					if fa2, ok := st.Addr.(*ssa.FieldAddr); ok && fa2.Field == fa.Field && fa2.X == fa.X {
+						if bo, ok := st.Val.(*ssa.BinOp); ok && bo.Op == token.ADD {
+							counter = true
+						}
+					}
+				}
+			})
+			return false
+		}, false)
+		c.check(counter && !fromLen, R, "wait-list ids come from a counter that only grows", mu.Pos(), "key derives from an incremented, stored-back counter field", "subscribe registers a waiter under an id that does not come from a monotonically growing counter (it depends on the current size of the wait list): after an earlier waiter has left, the next subscriber gets the id of a waiter that is still registered and replaces its channel - that waiter is never notified")
 	})
 	// the non-fast return hands out the same id that was used as key
 	c.check(n == 1, R, "one registration site", f.Pos(), "subscribe registers the channel exactly once", fmt.Sprintf("expected one waitList registration in subscribe, found %d", n))
